@@ -253,9 +253,20 @@ class StoryScenario(explore.Scenario):
         irs = [w.objs["I1"], w.objs["I2"]]
         for ir, other in ((irs[0], irs[1]), (irs[1], irs[0])):
             for sig, d in oracle.check_ir(w.g, ir, others=[other],
-                                          light=True):
-                out.append((sig.replace("/clone:", "/story:"), d))
+                                          light=True, props=self.parts()):
+                out.append((self.rename(sig).replace("/clone:", "/story:"),
+                            d))
         return out
+
+    def parts(self):
+        """the parts of the whole-IR oracle this property owns (C12 is about
+        the same lookups as C05 / C06)"""
+        return {"C12": ("C05", "C06", "C12")}.get(self.prop, (self.prop,))
+
+    def rename(self, sig):
+        if self.prop == "C12" and sig[:3] in ("C05", "C06"):
+            return "C12" + sig[3:]
+        return sig
 
     def self_contained(self, ir):
         t = oracle.tree(ir)
@@ -292,8 +303,10 @@ class StoryScenario(explore.Scenario):
         except Exception:  # noqa
             y = None
         if y is not None:
-            for sig, d in oracle.check_ir(g, y, others=[x]):
-                out.append((sig.replace("/clone:", "/story-deepcopy:"), d))
+            for sig, d in oracle.check_ir(g, y, others=[x],
+                                          props=self.parts()):
+                out.append((self.rename(sig).replace(
+                    "/clone:", "/story-deepcopy:"), d))
             if not (x.deep_eq(y) and y.deep_eq(x)):
                 out.append(("C18/story:deep-copy-not-deep_eq", ""))
         if self.self_contained(x):
@@ -305,8 +318,10 @@ class StoryScenario(explore.Scenario):
                 out.append(("C01/story:save-or-load-raises:%s"
                             % type(e).__name__, repr(e)[:200]))
                 return out
-            for sig, d in oracle.check_ir(g, z, others=[x]):
-                out.append((sig.replace("/clone:", "/story-loaded:"), d))
+            for sig, d in oracle.check_ir(g, z, others=[x],
+                                          props=self.parts()):
+                out.append((self.rename(sig).replace(
+                    "/clone:", "/story-loaded:"), d))
             if not (x.deep_eq(z) and z.deep_eq(x)):
                 out.append(("C01/story:loaded-not-deep_eq", ""))
                 out.append(("C18/story:loaded-not-deep_eq", ""))
